@@ -39,6 +39,7 @@ func (e *env) setupHosts() bool {
 		if i == 1 {
 			ctx = nil // inherit the outer host's context
 		}
+		e.reg.setCloseErr(e.closeErrMask(-1))
 		sc, serial, err := e.create(cr, ctx, int8(i))
 		if err != nil {
 			e.poisoned = fmt.Sprintf("host scope creation failed: %v", err)
@@ -97,6 +98,7 @@ func (e *env) cycle() {
 				ctx = e.long
 			}
 		}
+		e.reg.setCloseErr(e.closeErrMask(i))
 		sc, serial, err := e.create(cr, ctx, levels[i])
 		if err != nil {
 			if e.poisoned == "" {
@@ -212,6 +214,7 @@ func (e *env) cycle() {
 // provider.Close, final checkpoint.
 func (e *env) runCycles() (stats []cpStats) {
 	sp := e.spec
+	e.reg.setCloseErr(e.closeErrMask(-1))
 	if err := e.build(false); err != nil {
 		e.poisoned = "Build failed: " + err.Error()
 		return
@@ -235,6 +238,7 @@ func (e *env) runCycles() (stats []cpStats) {
 	}
 	for round := 1; round <= 2; round++ {
 		for i := 0; i < sp.N && e.poisoned == ""; i++ {
+			e.cycleNo++
 			e.cycle()
 		}
 		if e.poisoned != "" {
